@@ -404,10 +404,14 @@ def completions {ρ κ θ : Type} (evs : List (TEv ρ κ θ)) : Nat := (evs.filt
   serves many calls.  The attributes are part of the *environment state* `σ` — the same state the adversarial
   callbacks carry — because everybody who holds the object can assign them: the caller between two calls
   (`ObjOp.assign`, an arbitrary function `σ → σ`) and the callbacks themselves while a call is running (their
-  transition functions return the new `σ`).  Each entry point reads its limits from the state *it is entered
-  with*, as the code reads `self.max_retries` when `heal` starts (`range(self.max_retries + 1)` is evaluated
-  once), and keeps its private instance state `π` (`_worker_counter` and the event lists of the swarm, the
-  `transcription_log` of the nucleus) from call to call. -/
+  transition functions return the new `σ`).  `heal` reads `self.max_retries` once, when it is entered
+  (`range(self.max_retries + 1)`), and the tool loop's budget is an argument of the call, so for these two the
+  limit in force is the one of the state the call is *entered with*.  The swarm re-reads its limits while it
+  runs: its live object (`SwarmObj`, after section 5) uses `superviseLoopL`, the swarm with every read made
+  where the code makes it.
+  (`self.confidence_decay` is likewise read at every attempt; `HealObj.opsOf` is taken at entry — the decay
+  influences only the confidences reported, never a call.)  Private instance state `π` (`_worker_counter` and
+  the event lists of the swarm, the `transcription_log` of the nucleus) is kept from call to call. -/
 
 inductive ObjOp (σ α : Type) where
   /-- anything the holder of the object does between two calls: `obj.attr = v`, new scripts for the callbacks … -/
@@ -440,27 +444,120 @@ def HealObj.call {σ κ C : Type} (o : HealObj σ κ C) (_ : Unit) (s : σ) (pro
     Unit × σ × HealRun σ κ C :=
   ((), (heal (o.opsOf s) ⟨o.retriesOf s⟩ o.adv s prompt).st, heal (o.opsOf s) ⟨o.retriesOf s⟩ o.adv s prompt)
 
-/-- A live `RegenerativeSwarm`. -/
-structure SwarmObj (σ W ω η ι τ : Type) where
-  adv : SwarmAdv σ W ω η ι τ
-  /-- `self.max_regenerations`, `self.max_steps_per_worker` -/
-  cfgOf : σ → SwarmCfg
-  /-- `_is_success`, `_calculate_entropy` and `self.entropy_threshold` -/
-  codeOf : σ → SwarmCode ω
-  /-- the initial `memory_hints = []` -/
-  hints0 : η
-
-/-- `swarm.supervise(task)` on the live object; the private state is `SwarmSt` -/
-def SwarmObj.call {σ W ω η ι τ : Type} (o : SwarmObj σ W ω η ι τ) (sw : SwarmSt ι η) (s : σ) (task : τ) :
-    SwarmSt ι η × σ × SwarmRun σ W ω η ι :=
-  ((supervise (o.codeOf s) (o.cfgOf s) o.adv task o.hints0 sw s).sw,
-   (supervise (o.codeOf s) (o.cfgOf s) o.adv task o.hints0 sw s).st,
-   supervise (o.codeOf s) (o.cfgOf s) o.adv task o.hints0 sw s)
-
 /-- `nucleus.transcribe_with_tools(…, max_iterations, auto_execute)` on a live `Nucleus`: the budget is an
     argument of each call, the private state is `transcription_log`. -/
 def nucCall {σ ρ κ θ : Type} (adv : ToolAdv σ ρ κ θ) (log : List (TLog ρ θ)) (s : σ) (cfg : ToolCfg) :
     List (TLog ρ θ) × σ × ToolRun σ ρ κ θ :=
   (log ++ (transcribeWithTools cfg adv s).logged, (transcribeWithTools cfg adv s).st, transcribeWithTools cfg adv s)
+
+/-! ## 5. The swarm with its limits read where the code reads them
+
+  `supervise` does not take a snapshot of its limits: `while regenerations <= self.max_regenerations` and
+  `if regenerations <= self.max_regenerations` read the attribute every time round, `range(self.max_steps_per_worker)`
+  is evaluated when a worker is started, and `self.entropy_threshold` is read at every entropy test.  A factory,
+  worker or summarizer that holds the swarm can therefore move the budget *while the call runs* (a factory that
+  raises `max_regenerations` on every call keeps the loop going for ever).  `superviseLoopL` reads each limit off
+  the environment state at exactly those points; `reads` records, per spawn, the regeneration limit seen by the
+  loop test that admitted it and the step budget its worker was started with.  With callbacks that leave the
+  limits alone it is `superviseLoop` (`Lemmas/C18Live.lean`), for which the fuel `superviseFuel` suffices; in
+  general no fuel suffices and `res = none` (out of fuel) stands for a call that has not returned yet. -/
+
+structure SwarmLive (σ ω : Type) where
+  /-- `self.max_regenerations` -/
+  regenOf : σ → Int
+  /-- `self.max_steps_per_worker` -/
+  stepsOf : σ → Int
+  marker : ω → Bool
+  distinct : List ω → Nat
+  /-- `entropy < 1 - self.entropy_threshold` with the threshold as it is in that state -/
+  lowOf : σ → Nat → Nat → Bool
+
+def SwarmLive.codeAt {σ ω : Type} (L : SwarmLive σ ω) (s : σ) : SwarmCode ω := ⟨L.marker, L.distinct, L.lowOf s⟩
+
+def SwarmLive.cfgAt {σ ω : Type} (L : SwarmLive σ ω) (s : σ) : SwarmCfg := ⟨L.regenOf s, L.stepsOf s⟩
+
+/-- `_run_worker` with the entropy threshold read at every test (in the state the step left) -/
+def runWorkerL {σ W ω η ι τ : Type} (L : SwarmLive σ ω) (adv : SwarmAdv σ W ω η ι τ) (w : W) (task : τ) :
+    Nat → List ω → σ → WorkerRun σ ω
+  | 0, _, s => { st := s, res := .ok none, steps := [] }
+  | n + 1, recent, s =>
+    match adv.step s w task with
+    | (s1, .raise) => { st := s1, res := .raise, steps := [.raise] }
+    | (s1, .ok o) =>
+      if L.marker o then { st := s1, res := .ok (some o), steps := [.ok o] }
+      else if (window recent o).length ≥ 3 && L.lowOf s1 (L.distinct (window recent o)) (window recent o).length then
+        { st := s1, res := .ok none, steps := [.ok o] }
+      else
+        let r := runWorkerL L adv w task n (window recent o) s1
+        { st := r.st, res := r.res, steps := .ok o :: r.steps }
+
+structure SwarmRunL (σ W ω η ι : Type) where
+  st : σ
+  sw : SwarmSt ι η
+  res : Option (Out (SwarmResult ω ι))
+  spawns : List (Spawn W ω η)
+  /-- per spawn: `max_regenerations` as read by the loop test before it, `max_steps_per_worker` as read when its
+      worker was started (0 when the factory raised) -/
+  reads : List (Int × Int)
+
+def SwarmRunL.toRun {σ W ω η ι : Type} (r : SwarmRunL σ W ω η ι) : SwarmRun σ W ω η ι := ⟨r.st, r.sw, r.res, r.spawns⟩
+
+/-- the `while regenerations <= self.max_regenerations` loop with every read of a limit made where the code makes it -/
+def superviseLoopL {σ W ω η ι τ : Type} (L : SwarmLive σ ω) (adv : SwarmAdv σ W ω η ι τ)
+    (task : τ) : Nat → Nat → η → SwarmSt ι η → σ → SwarmRunL σ W ω η ι
+  | 0, _, _, sw, s => { st := s, sw := sw, res := none, spawns := [], reads := [] }
+  | fuel + 1, k, hints, sw, s =>
+    if (k : Int) ≤ L.regenOf s then
+      match adv.factory s (sw.counter + 1) hints with
+      | (s1, .raise) =>
+        { st := s1, sw := ⟨sw.counter + 1, sw.apop, sw.regen⟩, res := some .raise
+          spawns := [⟨sw.counter + 1, hints, .raise, [], none⟩], reads := [(L.regenOf s, 0)] }
+      | (s1, .ok w) =>
+        match runWorkerL L adv w task (L.stepsOf s1).toNat [] s1 with
+        | ⟨s2, .raise, steps⟩ =>
+          { st := s2, sw := ⟨sw.counter + 1, sw.apop, sw.regen⟩, res := some .raise
+            spawns := [⟨sw.counter + 1, hints, .ok w, steps, none⟩], reads := [(L.regenOf s, L.stepsOf s1)] }
+        | ⟨s2, .ok (some o), steps⟩ =>
+          { st := s2, sw := ⟨sw.counter + 1, sw.apop, sw.regen⟩
+            res := some (.ok ⟨true, some o, sw.counter + 1, some (adv.wid w)⟩)
+            spawns := [⟨sw.counter + 1, hints, .ok w, steps, none⟩], reads := [(L.regenOf s, L.stepsOf s1)] }
+        | ⟨s2, .ok none, steps⟩ =>
+          match adv.summarize s2 w with
+          | (s3, .raise) =>
+            { st := s3, sw := ⟨sw.counter + 1, sw.apop, sw.regen⟩, res := some .raise
+              spawns := [⟨sw.counter + 1, hints, .ok w, steps, some .raise⟩], reads := [(L.regenOf s, L.stepsOf s1)] }
+          | (s3, .ok h) =>
+            let r := superviseLoopL L adv task fuel (k + 1) h
+              ⟨sw.counter + 1, sw.apop ++ [(adv.wid w, h)],
+                if ((k + 1 : Nat) : Int) ≤ L.regenOf s3 then sw.regen ++ [(adv.wid w, sw.counter + 2, h)]
+                else sw.regen⟩ s3
+            { st := r.st, sw := r.sw, res := r.res
+              spawns := ⟨sw.counter + 1, hints, .ok w, steps, some (.ok h)⟩ :: r.spawns
+              reads := (L.regenOf s, L.stepsOf s1) :: r.reads }
+    else
+      { st := s, sw := sw, res := some (.ok ⟨false, none, sw.counter, none⟩), spawns := [], reads := [] }
+
+/-- `RegenerativeSwarm.supervise(task)` run for at most `fuel` turns of its `while` loop -/
+def superviseL {σ W ω η ι τ : Type} (L : SwarmLive σ ω) (adv : SwarmAdv σ W ω η ι τ)
+    (task : τ) (hints0 : η) (fuel : Nat) (sw : SwarmSt ι η) (s : σ) : SwarmRunL σ W ω η ι :=
+  superviseLoopL L adv task fuel 0 hints0 sw s
+
+/-! ### the live swarm object (uses `superviseL`, section 5) -/
+
+/-- A live `RegenerativeSwarm`: its callbacks, how its public limits are read off the environment state (at every
+    point where the code reads them), and how many turns of the `while` loop the model follows. -/
+structure SwarmObj (σ W ω η ι τ : Type) where
+  adv : SwarmAdv σ W ω η ι τ
+  live : SwarmLive σ ω
+  /-- the initial `memory_hints = []` -/
+  hints0 : η
+  fuel : Nat
+
+/-- `swarm.supervise(task)` on the live object; the private state is `SwarmSt` -/
+def SwarmObj.call {σ W ω η ι τ : Type} (o : SwarmObj σ W ω η ι τ) (sw : SwarmSt ι η) (s : σ) (task : τ) :
+    SwarmSt ι η × σ × SwarmRunL σ W ω η ι :=
+  ((superviseL o.live o.adv task o.hints0 o.fuel sw s).sw,
+   (superviseL o.live o.adv task o.hints0 o.fuel sw s).st,
+   superviseL o.live o.adv task o.hints0 o.fuel sw s)
 
 end Operon.Loops
